@@ -29,7 +29,13 @@ bool SchemaAuditor::CheckConstituenta(const std::string& alias, const std::strin
   if (!auditor.CheckType(expr, rslang::Syntax::MATH)) {
     return false;
   }
-  
+  if (!isBaseSet && auditor.parser.AST().Root().ChildrenCount() < 2) {
+    // Note: blank definition declares a base set - derived constituenta should have an expression
+    auditor.isTypeCorrect = false;
+    OnError(CstTypeEID::cstEmptyDerived);
+    return false;
+  }
+
   const auto isCallable = IsCallable(targetType);
   if (isCallable == std::empty(auditor.GetDeclarationArgs())) {
     auditor.isTypeCorrect = false;
